@@ -62,6 +62,7 @@ class Ctx:
         self.rng = case_rng(check_id, tier, seed, index)
         self._dirs = []
         self.replaying = False
+        self.info = {}  # attached to the detail of every failure of this case (e.g. the op program so far)
 
     # -- observation counters
     def count(self, monitor, n=1):
@@ -86,6 +87,12 @@ class Ctx:
     # -- verdicts
     def fail(self, key, msg, detail=None, stop=False):
         """An oracle failed. key is a *mechanism* key (no seeds, no random values)."""
+        if self.info:
+            detail = dict(detail or {}) if isinstance(detail, dict) or detail is None else {"detail": detail}
+            try:
+                detail["info"] = json.loads(json.dumps(self.info, default=repr))
+            except Exception:
+                detail["info"] = repr(self.info)[:4000]
         f = {"key": "%s:%s" % (self.check_id, key), "msg": str(msg)[:2000],
              "detail": detail, "case": self.index}
         fl = self.acc["failures"]
@@ -141,7 +148,9 @@ def run_one(mod, ctx):
         ctx.acc["discards"][r] = ctx.acc["discards"].get(r, 0) + 1
     except OracleFailure:
         pass
-    except Exception as e:  # unexpected: the operation under test blew up
+    except (KeyboardInterrupt, SystemExit):
+        raise
+    except BaseException as e:  # unexpected: the operation under test blew up (incl. pyo3 PanicException)
         tb = e.__traceback__
         where = _where(tb)
         ctx.fail("unexpected:%s@%s" % (type(e).__name__, where), repr(e)[:500],
@@ -211,7 +220,12 @@ def write_evidence(check_id, ev):
 
         with open("/root/.vp/EVIDENCE.schema.json") as f:
             schema = json.load(f)
-        jsonschema.validate(ev, schema)
+        try:
+            jsonschema.validate(ev, schema)
+        except jsonschema.ValidationError as e:
+            if not ev.get("violations"):
+                raise
+            ev["coverage"]["schema_note"] = "violating run; evidence incomplete: %s" % (e.message[:200],)
     except FileNotFoundError:
         pass
     except ImportError:
@@ -245,7 +259,7 @@ def inconclusive(check_id, tier, seed, mod, reason, t0, extra=None):
 def parent_main(check_id, tier, seed, nshards=None, only_case=None):
     t0 = time.time()
     mod = load_check(check_id)
-    rust = list(getattr(mod, "RUST", []))
+    rust = list(getattr(mod, "RUST", boot.DEFAULT_RUST))
     env = dict(os.environ)
     env["PYTHONHASHSEED"] = "0"
     env["PYTHONPATH"] = VERIF + os.pathsep + env.get("PYTHONPATH", "")
@@ -259,6 +273,13 @@ def parent_main(check_id, tier, seed, nshards=None, only_case=None):
         r = mod.parent_setup(tier)
         if r:
             return inconclusive(check_id, tier, seed, mod, r, t0)
+    import glob
+
+    for old in glob.glob(os.path.join(VERIF, "replays", "%s-*" % check_id)):
+        try:
+            os.unlink(old)
+        except OSError:
+            pass
     ncases = mod.CASES[tier]
     if nshards is None:
         nshards = int(os.environ.get("VERIF_SHARDS") or getattr(mod, "SHARDS", {}).get(tier, 0) or min(16, os.cpu_count() or 4))
@@ -286,7 +307,11 @@ def parent_main(check_id, tier, seed, nshards=None, only_case=None):
             dead.append((s, "watchdog"))
         log.close()
         if not os.path.exists(out):
-            tail = open(log.name, errors="replace").read()[-1500:]
+            full = open(log.name, errors="replace").read()
+            os.makedirs(os.path.join(VERIF, "replays"), exist_ok=True)
+            with open(os.path.join(VERIF, "replays", "%s-worker%d.log" % (check_id, s)), "w") as fh:
+                fh.write(full[-200000:])
+            tail = full[-1500:]
             dead.append((s, "rc=%s no result: %s" % (p.returncode, tail)))
             continue
         with open(out) as f:
@@ -379,6 +404,8 @@ def parent_main(check_id, tier, seed, nshards=None, only_case=None):
             paths.append(rp)
             print("  failure key=%s case=%d n=%d: %s" % (k, f["case"], merged["fail_counts"].get(k, len(fl)), f["msg"][:300].replace("\n", " ")), flush=True)
         ev["coverage"]["replays"] = paths
+        if not ev["coverage"]["samples"]:
+            ev["coverage"]["samples"] = [{"failing_case": fl[0]["case"], "key": k, "msg": fl[0]["msg"][:300]} for k, fl in sorted(viol.items())[:3]]
         write_evidence(check_id, ev)
         for rp in paths:
             print("VIOLATION property=%s replay=%s" % (check_id, rp), flush=True)
@@ -393,7 +420,7 @@ def replay_main(check_id, path):
     with open(path) as f:
         rp = json.load(f)
     mod = load_check(check_id)
-    rust = list(getattr(mod, "RUST", []))
+    rust = list(getattr(mod, "RUST", boot.DEFAULT_RUST))
     if rust:
         ok, log = boot.build_rust(rust)
         if ok:
